@@ -202,10 +202,11 @@ NextEXT == \E hel \in Hels, tag \in {3, 80} :
              \/ /\ c' = <<"ip6rt", hel, tag>> /\ LET rt == RtEl("r", 58, hel, tag) IN Emit("EXT", Ip6With("i", <<>>, <<rt>>, 43, 58, tag, 5), <<rt>>)
              \/ /\ c' = <<"ip6both", hel, tag>>
                 /\ LET hb == HbhBig("h", 43, hel, tag)  rt == RtEl("r", 6, 255 - hel, tag) IN Emit("EXT", Ip6With("i", <<hb>>, <<rt>>, 0, 6, tag, 5), <<hb, rt>>)
-DhcpTree(tag, hlen, opts) ==
+DhcpTreeN(tag, hlen, opts, sn, fl) ==
   [T |-> "DHCP", Operation |-> <<1 + (tag % 2)>>, HardwareType |-> <<1>>, HardwareLen |-> <<hlen>>, HardwareOpts |-> <<0>>, Xid |-> V(tag, 4), Secs |-> V(tag + 1, 2),
    Flags |-> <<128, 0>>, ClientIP |-> V(tag + 2, 4), YourIP |-> V(tag + 3, 4), ServerIP |-> V(tag + 4, 4), GatewayIP |-> V(tag + 5, 4),
-   ClientHWAddr |-> V(tag + 6, hlen), ServerName |-> V(tag + 7, 64), File |-> V(tag + 8, 128), Options |-> opts]
+   ClientHWAddr |-> V(tag + 6, hlen), ServerName |-> V(tag + 7, sn), File |-> V(tag + 8, fl), Options |-> opts]
+DhcpTree(tag, hlen, opts) == DhcpTreeN(tag, hlen, opts, 64, 128)
 DOpt(tag, data) == [T |-> "DHCPOption", Tag |-> <<tag>>, Data |-> data]
 \* DHCP and LLDP TLVs (Read / Write style codecs), built through the API
 DhcpEl(n, tag, hlen, opts) ==
@@ -214,6 +215,33 @@ DhcpEl(n, tag, hlen, opts) ==
   El(n, t, OpsOf(os) \o <<New(n, "NewDHCP", <<t.Xid, t.Operation, <<1>>>>)>>
        \o SetAll(n, t, <<"HardwareLen", "HardwareOpts", "Secs", "Flags", "ClientIP", "YourIP", "ServerIP", "GatewayIP", "ClientHWAddr", "ServerName", "File">>)
        \o <<Set(n, "Options", RefsOf(os))>>)
+\* DHCP as applications build it: server name / boot file shorter than their fixed fields (RFC 2131: 64 / 128 octets, zero-padded),
+\* addresses in the 16-byte representation net.ParseIP returns, and the helper constructors (which leave both names unset)
+V4in16(ip) == <<0, 0, 0, 0, 0, 0, 0, 0, 0, 0, 255, 255>> \o ip
+DhcpShortEl(n, tag, hlen, opts, sn, fl, ip16) ==
+  LET t == DhcpTreeN(tag, hlen, opts, sn, fl)
+      os == [i \in DOMAIN opts |-> El(Nm(n, i), opts[i], <<New(Nm(n, i), "DHCPNewOption", <<opts[i].Tag, opts[i].Data>>)>>)]
+      ipf == <<"ClientIP", "YourIP", "ServerIP", "GatewayIP">> IN
+  El(n, t, OpsOf(os) \o <<New(n, "NewDHCP", <<t.Xid, t.Operation, <<1>>>>)>>
+       \o SetAll(n, t, <<"HardwareLen", "HardwareOpts", "Secs", "Flags", "ClientHWAddr">>)
+       \o [i \in 1..4 |-> Set(n, ipf[i], IF ip16 THEN V4in16(t[ipf[i]]) ELSE t[ipf[i]])]
+       \o (IF sn > 0 THEN <<Set(n, "ServerName", t.ServerName)>> ELSE <<>>) \o (IF fl > 0 THEN <<Set(n, "File", t.File)>> ELSE <<>>)
+       \o <<Set(n, "Options", RefsOf(os))>>)
+DhcpCtors == <<"NewDHCPDiscover", "NewDHCPOffer", "NewDHCPRequest", "NewDHCPAck", "NewDHCPNak">>
+DhcpMsgType == <<1, 2, 3, 5, 6>>
+DhcpCtorEl(n, k, tag, hlen) ==
+  LET hw == V(tag + 6, hlen)  mt == DhcpMsgType[k]
+      t == [T |-> "DHCP", Operation |-> <<mt>>, HardwareType |-> <<1>>, HardwareLen |-> <<hlen>>, HardwareOpts |-> <<0>>, Xid |-> V(tag, 4), Secs |-> <<0, 0>>,
+            Flags |-> <<0, 0>>, ClientIP |-> <<0, 0, 0, 0>>, YourIP |-> <<0, 0, 0, 0>>, ServerIP |-> <<0, 0, 0, 0>>, GatewayIP |-> <<0, 0, 0, 0>>,
+            ClientHWAddr |-> hw, ServerName |-> <<>>, File |-> <<>>,
+            Options |-> <<DOpt(53, <<mt>>)>> \o (IF k = 1 THEN <<DOpt(61, hw)>> ELSE <<>>)] IN
+  El(n, t, <<New(n, DhcpCtors[k], <<t.Xid, hw>>)>>)
+NextDC == \/ \E k \in 1..5, hlen \in {6, 16}, tag \in {5, 90} :
+               /\ c' = <<"ctor", k, hlen, tag>>
+               /\ Emit("DC", DhcpCtorEl("d", k, tag, hlen), <<>>)
+          \/ \E sn \in {0, 5, 63, 64}, fl \in {0, 9, 128}, ip16 \in BOOLEAN, tag \in {5} :
+               /\ c' = <<"short", sn, fl, ip16, tag>>
+               /\ Emit("DC", DhcpShortEl("d", tag, 6, <<DOpt(53, <<1>>), DOpt(12, V(tag, 9))>>, sn, fl, ip16), <<>>)
 LldpIdEl(n, kind, type, subtype, data) ==
   LET t == [T |-> kind, Type |-> <<type>>, Length |-> BE16(1 + Len(data)), Subtype |-> <<subtype>>, Data |-> data] IN
   El(n, t, <<NewT(n, kind)>> \o SetAll(n, t, <<"Type", "Length", "Subtype", "Data">>))
@@ -271,6 +299,6 @@ NextBASE == \/ /\ c' = <<"lldp">>
                  /\ PrintT(ToJson([entry |-> "DHCPOptions", kind |-> "DHCPOptions", frame |-> Flat([i \in DOMAIN ol |-> EncDhcpOpt(ol[i])]) \o <<255>>]))
 Init == c = <<>>
 Next == c = <<>> /\ CASE Family = "VLAN" -> NextVLAN [] Family = "ETH" -> NextETH [] Family = "IP4" -> NextIP4 [] Family = "IP6" -> NextIP6
-                      [] Family = "FRAG" -> NextFRAG [] Family = "TCP" -> NextTCP [] Family = "L4" -> NextL4 [] Family = "IGMP" -> NextIGMP [] Family = "BASE" -> NextBASE [] Family = "EXT" -> NextEXT [] Family = "DL" -> NextDL
+                      [] Family = "FRAG" -> NextFRAG [] Family = "TCP" -> NextTCP [] Family = "L4" -> NextL4 [] Family = "IGMP" -> NextIGMP [] Family = "BASE" -> NextBASE [] Family = "EXT" -> NextEXT [] Family = "DL" -> NextDL [] Family = "DC" -> NextDC
 Spec == Init /\ [][Next]_c
 =============================================================================
